@@ -260,7 +260,15 @@ fn adversarial_with(bytes: &[u8], triggers: bool, stable: bool) -> (String, usiz
         // after the sentinel the program ends in an uncaught error whose report has to describe an
         // awkward value: an error whose context is itself or a longer cycle, a self-containing vector
         // or map, a user error with a container or an instance as context, an empty context
-        let tail = match rd.below(7) {
+        // ... or an error that travels through call frames and finally-only handlers of callers before
+        // it ends the run: thrown by a callee, raised by a built-in in a callee, through two levels,
+        // inside a fiber, and caught and thrown again
+        let tail = match rd.below(12) {
+            7 => "var ucount = 0; fn uthrow() { throw Error.new(\"from a callee\"); } fn ucleanup() { try { uthrow(); } finally { ucount = ucount + 1; } } ucleanup();",
+            8 => "var ucount = 0; fn ubad() { return nil + 1; } fn ucleanup() { try { ubad(); } finally { ucount = ucount + 1; } } ucleanup();",
+            9 => "var ucount = 0; fn uthrow() { throw \"plain value from two frames down\"; } fn umid() { try { uthrow(); } finally { ucount = ucount + 1; } } fn uouter() { try { umid(); } finally { ucount = ucount + 10; } } uouter();",
+            10 => "var ucount = 0; fn uthrow() { throw Error.new(\"in a fiber\"); } var ufib = Fiber.new(|| { try { uthrow(); } finally { ucount = ucount + 1; } }); ufib.call();",
+            11 => "fn uthrow() { throw Error.new(\"thrown again\"); } fn uagain() { try { uthrow(); } catch ue { throw ue; } } uagain();",
             0 => "var ue = Error.new(\"x\"); ue.context = ue; throw ue;",
             1 => "var ua = MyErr.new(); var ub = MyErr.new(); ua.context = ub; ub.context = ua; throw ua;",
             2 => "throw selfvec2;",
@@ -360,7 +368,7 @@ impl Property for C02 {
     }
 
     fn rule(&self) -> String {
-        format!("cases: (adversarial) programs of 8-47 operations, each one of: binary/unary operator, index, slice, method call with 0-3 arguments drawn blindly, method call that respects the method's signature (receiver of the right class and arguments of the expected kinds from typed sub-pools of strings, small and extreme numbers, vectors of byte and code-point values, functions, tuples, maps, ranges, fibers and iterators, sometimes one argument off or an arbitrary value, sometimes chained), a value that contains itself along several paths printed, converted to text, interpolated, used as a map key, iterated, thrown or nested, property get/set, call, for-in, throw, interpolation, map-key use, element assignment, or `#[derive(x)]` of a value, applied to operands from an adversarial pool of {} values (nil, booleans, 0, -0, NaN, infinities, 2^53, +-2^63, overflowed 1e308*10, empty/ASCII/multi-byte/long strings, empty and nested containers, a vec and a map containing themselves, empty/reversed/huge ranges, lambdas of arity 0-2, natives, bound methods and bound natives, user and built-in classes and metaclasses, instances, fibers that are new/suspended/finished, fresh and exhausted iterators, a module, StopIter and error instances) and {} member names; every operation is wrapped in try/catch printing the class and the program ends with a sentinel, one program in ten then with an uncaught error whose report must describe a self-referential or empty context; (depth) recursion to 55-74 frames through functions, methods, fibers and try/finally with up to 200 live temporaries per frame; (illtyped) generated programs with half of all operands ill-typed; (*_triggers) the same with the shapes of recorded findings enabled. Run in the checked build with collection at every allocation and swept objects quarantined. Oracle: the run returns Ok or an Error with >=1 message, no panic, no worker death, no dereference of a swept object, the sentinel is printed (every error was catchable and execution continued), arithmetic still works afterwards. Non-trivial: >=10 operations of which >=3 failed with a reported error and >=3 succeeded; distinct by program text.", POOL.len(), NAMES.len())
+        format!("cases: (adversarial) programs of 8-47 operations, each one of: binary/unary operator, index, slice, method call with 0-3 arguments drawn blindly, method call that respects the method's signature (receiver of the right class and arguments of the expected kinds from typed sub-pools of strings, small and extreme numbers, vectors of byte and code-point values, functions, tuples, maps, ranges, fibers and iterators, sometimes one argument off or an arbitrary value, sometimes chained), a value that contains itself along several paths printed, converted to text, interpolated, used as a map key, iterated, thrown or nested, property get/set, call, for-in, throw, interpolation, map-key use, element assignment, or `#[derive(x)]` of a value, applied to operands from an adversarial pool of {} values (nil, booleans, 0, -0, NaN, infinities, 2^53, +-2^63, overflowed 1e308*10, empty/ASCII/multi-byte/long strings, empty and nested containers, a vec and a map containing themselves, empty/reversed/huge ranges, lambdas of arity 0-2, natives, bound methods and bound natives, user and built-in classes and metaclasses, instances, fibers that are new/suspended/finished, fresh and exhausted iterators, a module, StopIter and error instances) and {} member names; every operation is wrapped in try/catch printing the class and the program ends with a sentinel, one program in ten then with an uncaught error whose report must describe a self-referential or empty context, or that reaches the top through call frames and finally-only handlers of callers (thrown or raised by a built-in in a callee, two levels, inside a fiber, caught and thrown again); (depth) recursion to 55-74 frames through functions, methods, fibers and try/finally with up to 200 live temporaries per frame; (illtyped) generated programs with half of all operands ill-typed; (*_triggers) the same with the shapes of recorded findings enabled. Run in the checked build with collection at every allocation and swept objects quarantined. Oracle: the run returns Ok or an Error with >=1 message, no panic, no worker death, no dereference of a swept object, the sentinel is printed (every error was catchable and execution continued), arithmetic still works afterwards. Non-trivial: >=10 operations of which >=3 failed with a reported error and >=3 succeeded; distinct by program text.", POOL.len(), NAMES.len())
     }
 
     fn assumptions(&self) -> Vec<String> {
